@@ -231,6 +231,9 @@ def run(rep, tier, seed):
         n = tot["nlines"] + len(hl)
         judge.judge(rep, "Trace_TraitDict", "Trace_TraitDict", "Trace_TraitDict.cfg", trace, n, sig_of=sig_of,
                     heap="8g" if tier == "quick" else "24g")
+        from .. import suite_phase
+        ns = suite_phase.run(rep, "C06", "dict", tier, sig_of=lambda rec, cl: sig_of(rec, cl).replace("C06:judge:", "C06:suite:"))
+        rep.notes.append("%d TraitDict operations recorded while the repository's own tests ran were judged by the same judge" % ns)
         rep.rule = ("every (ordered dict, key/value validator modes, operation, arguments) state enumerated by TLC from "
                     "TraitDictMC (%s) executed on a real TraitDict (int keys and, under the identity validator, equal "
                     "float keys) and on a builtin dict, plus %d seeded history steps; every record judged by TLC" %
